@@ -91,7 +91,19 @@ def _ties(ctx, side):
     return ((o if side == "tc" else o._tensordict,), {})
 
 
-reg("__eq__ __ne__ __ge__ __gt__ __le__ __lt__", _c("ties", _ties, prepare=_stash))
+def _ties_lazy_operand(ctx, side):
+    """the same tied operand, but LAZILY STACKED (the receiver may be dense: `dense >= lazy` is answered by the reflected
+    operator of the lazy stack)"""
+    import c15_classes as Z
+    (o,), _ = _ties(ctx, "tc")
+    lz = Z.make_lazy(ctx.cls, flavour=ctx.flavour)
+    lz.x = o.x
+    if "n" in ctx.cls.__expected_keys__:
+        lz.n.y = o.n.y
+    return ((lz if side == "tc" else lz._tensordict,), {})
+
+
+reg("__eq__ __ne__ __ge__ __gt__ __le__ __lt__", _c("ties", _ties, prepare=_stash), _c("ties-lazy-operand", _ties_lazy_operand, prepare=_stash))
 
 
 def _same_values(ctx, side):
